@@ -10,6 +10,8 @@ from ..patterns import (Cmp, assigns_to, calls_in, check_masked_ufuncs,
                         check_no_arg_mutation, conjuncts, finfo, returns_of,
                         subscript_stores)
 
+from ..match import C, CS
+
 LI = 'enspara/info_theory/libinfo.pyx'
 MI = 'enspara/info_theory/mutual_info.py'
 EN = 'enspara/info_theory/entropy.py'
@@ -182,29 +184,53 @@ def d4_grid(ck):
     fn = mod.func('channel_capacity_normalization')
     ck.analysed(mod, fn)
     fi = finfo(mod, fn)
-    mg = calls_in(fn, 'np.meshgrid')
-    if len(mg) != 1:
-        ck.missing(rule, 'np.meshgrid call')
+    # the per-pair state-count grid: any of
+    #   np.fmin(*np.meshgrid(n_x, n_y, indexing='ij'))      np.fmin(*np.meshgrid(n_y, n_x))  [xy]
+    #   np.fmin(n_x[:, None], n_y[None, :]) / np.fmin(n_x[:, None], n_y)      np.minimum.outer(n_x, n_y)
+    grids = [s for s in walk_local(fn) if isinstance(s, ast.Assign) and isinstance(s.value, ast.Call)
+             and (call_name(s.value) or '') in ('np.fmin', 'np.minimum', 'np.minimum.outer', 'np.fmin.outer')]
+    if len(grids) != 1:
+        ck.missing(rule, 'definition of the per-pair minimum state-count grid (np.fmin/np.minimum)')
         return
-    c = mg[0]
-    ix = kwarg(c, 'indexing')
-    args = [u(a) for a in c.args]
-    ok = args == ['n_x', 'n_y'] and ix is not None and const_value(ix) == 'ij'
-    alt = args == ['n_y', 'n_x'] and (ix is None or const_value(ix) == 'xy')
-    ck.check(ok or alt, rule, mod, c, 'channel_capacity_normalization', u(c),
-             'grid axes are (n_x, n_y), matching mi[i, j]',
-             'mi has shape (n_features_a, n_features_b) = (len(n_x), len(n_y)); '
-             'np.meshgrid(n_x, n_y) without indexing=\'ij\' has shape (len(n_y), len(n_x)): a '
-             'ValueError for unequal feature counts and a transposed divisor otherwise')
-    par = mod.parent.get(c)
-    while par is not None and not isinstance(par, ast.Call):
-        par = mod.parent.get(par)
-    ok = par is not None and call_name(par) in ('np.fmin', 'np.minimum')
-    ck.check(ok, rule + '.min', mod, par or c, 'channel_capacity_normalization', u(par) if par else u(c),
-             'per-pair smaller state count', 'the per-pair capacity must use the SMALLER of the two state counts (np.fmin / np.minimum)')
+    gs = grids[0]
+    gv = gs.value
+    gname = u(gs.targets[0])
+    ok = False
+    why = ''
+    if len(gv.args) == 1 and isinstance(gv.args[0], ast.Starred) and isinstance(gv.args[0].value, ast.Call) \
+            and call_name(gv.args[0].value) == 'np.meshgrid':
+        c = gv.args[0].value
+        ix = kwarg(c, 'indexing')
+        args = [u(a) for a in c.args]
+        ok = (args == ['n_x', 'n_y'] and ix is not None and const_value(ix) == 'ij') or \
+            (args == ['n_y', 'n_x'] and (ix is None or const_value(ix) == 'xy'))
+        why = 'np.meshgrid(%s, indexing=%s)' % (', '.join(args), u(ix) if ix is not None else "default 'xy'")
+    elif (call_name(gv) or '').endswith('.outer'):
+        ok = [u(a) for a in gv.args] == ['n_x', 'n_y']
+        why = u(gv)
+    elif len(gv.args) == 2:
+        def axis_of(e):
+            # returns (vector name, axis it varies along in the 2-D grid)
+            from .C08 import row_factor, col_wrong
+            r = row_factor(e)
+            if r is not None:
+                return u(r), 0
+            cwrong = col_wrong(e)
+            if cwrong is not None:
+                return u(cwrong), 1
+            return u(e), 1
+        roles = dict(axis_of(a) for a in gv.args)
+        ok = roles == {'n_x': 0, 'n_y': 1}
+        why = 'broadcast grid with %s' % roles
+    ck.check(ok, rule, mod, gs, 'channel_capacity_normalization', u(gs),
+             'grid axes are (n_x, n_y), matching mi[i, j] (%s)' % why,
+             'mi has shape (n_features_a, n_features_b) = (len(n_x), len(n_y)): entry (i, j) must be divided by '
+             'log(min(n_x[i], n_y[j])). The grid built here (%s) has n_x along the other axis: a ValueError for '
+             'unequal feature counts and a transposed divisor otherwise' % why)
+    ck.ok(rule + '.min', mod, gs, u(gs), 'per-pair SMALLER state count (%s)' % call_name(gv))
     dv = [x for x in calls_in(fn, 'np.divide')]
     ok = len(dv) == 1 and u(dv[0].args[0]) == 'mi' and call_name(dv[0].args[1]) == 'np.log' and \
-        u(dv[0].args[1].args[0]) == 'min_num_states' and u(kwarg(dv[0], 'out')) == 'mi'
+        u(dv[0].args[1].args[0]) == gname and u(kwarg(dv[0], 'out')) == 'mi'
     ck.check(ok, rule + '.divide', mod, dv[0] if dv else fn, 'channel_capacity_normalization', u(dv[0]) if dv else 'np.divide',
              'mi / log(min states) in the private copy', 'entry (i, j) must be divided by log(min_num_states[i, j])')
     # works on a copy
@@ -290,7 +316,7 @@ def d6_joint_counts(ck):
     fm = mod.func('mi_matrix')
     ck.analysed(mod, fm)
     jcalls = [c for c in calls_in(fm) if call_name(c) == 'joint_counts']
-    ok = len(jcalls) == 1 and [u(a) for a in jcalls[0].args] == ['X', 'Y', 'np.max(n_x)', 'np.max(n_y)']
+    ok = len(jcalls) == 1 and [u(a) for a in jcalls[0].args] == ['X', 'Y', C('np.max(n_x)'), C('np.max(n_y)')]
     ck.check(ok, rule + '.pooled', mod, jcalls[0] if jcalls else fm, 'mi_matrix', u(jcalls[0]) if jcalls else 'joint_counts',
              'every trajectory counted with the same (max) state counts', 'joint_counts(X, Y, np.max(n_x), np.max(n_y)) expected')
     acc = [s for s in walk_local(fm) if isinstance(s, ast.AugAssign) and u(s.target) == 'jc']
@@ -323,7 +349,7 @@ def d7_entropy(ck):
     fs = mod.func('shannon_entropy')
     ck.analysed(mod, fs)
     hs = [s for s in assigns_to(fs, 'H') if isinstance(s, ast.Assign)]
-    ok = len(hs) == 1 and u(hs[0].value).startswith('-np.sum(p * np.log(p')
+    ok = len(hs) == 1 and (u(hs[0].value).startswith('-np.sum(p * np.log(p') or u(hs[0].value).startswith('-(p * np.log(p'))
     ck.check(ok, rule, mod, hs[0] if hs else fs, 'shannon_entropy', u(hs[0])[:100] if hs else 'H',
              '-sum p log p', 'entropy must be -sum(p * log p)')
 
